@@ -14,7 +14,7 @@ def expect_callsign(codes):
 class C07(PropBase):
     id = "C07"
     corr_fields = ['ais', 'cat']
-    lean_modules = ["SqModel.Props.C07", "SqModel.Proofs.Bridge"]
+    lean_modules = ["SqModel.Props.C07", "SqModel.Proofs.Bridge", "SqModel.Proofs.BridgePlane"]
     extractors = ["trans"]
     rule = ("every 6-bit code 0..63 in each of the 8 character positions (512 frames) plus random 48-bit strings, TC 1..4 x "
             "CA 0..7, as creating frame, after a DF11, after an identification squitter with the same characters but another type code and category, and after two identification squitters that differ in one character (each position), -U/-R on/off; BDS 2,0 via DF20 and DF21 under capability 0..7 x -R, for rows with and without an earlier identification squitter. "
@@ -91,21 +91,29 @@ class C07(PropBase):
                     mb = F.bds20(codes)
                     fr = F.df20(0, 0, 0, F.ac13_q1(1000), mb, a) if df == 20 else F.df21(0, 0, 0, 0o1234, mb, a)
                     pre.append(F.df11(ca, a, 0)); rep_frames.append(fr)
-                    prev = "-"
+                    prev, prevcat = "-", "0/0"
                     if i % 3 == 1:
                         # the row already has a callsign and a category from an identification squitter (same CA)
                         pc = [rng.choice([1, 5, 20, 26, 48, 57]) for _ in range(8)]
                         pre.append(F.df17(ca, a, F.me_ident(1 + i % 4, 1 + i % 7, pc)))
                         prev = '"%s"' % expect_callsign(pc)
-                    cases.append((a, ca, codes, fr, prev))
+                        prevcat = "%d/%d" % (1 + i % 4, 1 + i % 7)
+                    cases.append((a, ca, codes, fr, prev, prevcat))
                 ops += gen.seg(pre) + gen.seg(rep_frames) + ["dump"]
                 impl, _, model = run.execute(ops, model=driver_ok)
                 rep.evaluations += n; rep.traces += 1
                 self.corr(rep, impl, model, {"bds20": True, "relaxed": r, "use_update": u})
                 rows = gen.parse_dump(impl)
-                for a, ca, codes, fr, prev in cases:
+                for a, ca, codes, fr, prev, prevcat in cases:
                     want = ('"%s"' % expect_callsign(codes)) if (r or ca >= 4) else prev
                     got = rows.get(a, {}).get("ais")
+                    # the emitter category is carried by identification squitters only: a Comm-B reply never changes it
+                    if rows.get(a, {}).get("cat") != prevcat:
+                        self.fail(rep, f"BDS 2,0 reply {fr} changed the emitter category of {a:06X} from {prevcat} to {rows.get(a, {}).get('cat')} "
+                                       f"(capability {ca}, relaxed={r}, use_update={u})",
+                                  {"ops": ["reset", gen.cfg_op(use_update=u, relaxed=r)] + gen.seg([f for f in pre if f[2:8] == "%06X" % a]) + gen.seg([fr]) + ["dump"],
+                                   "frame": fr, "address": a})
+                        return
                     if got != want:
                         self.fail(rep, f"BDS 2,0 reply {fr} for capability {ca}, relaxed={r}: row shows ais={got}, expected {want}",
                                   {"ops": ["reset", gen.cfg_op(use_update=u, relaxed=r)] + gen.seg([f for f in pre if f[2:8] == "%06X" % a]) + gen.seg([fr]) + ["dump"],
